@@ -28,7 +28,7 @@ def run_harness(mode, timeout=600, hooks=False):
         feats = '"text", "inline", "bytes"' if os.path.exists(os.path.join(REPO, 'src/text/inline.rs')) else ''
         with open(os.path.join(scratch, 'Cargo.toml'), 'w') as f:
             f.write('[package]\nname = "replay"\nversion = "0.1.0"\nedition = "2018"\n[dependencies]\n'
-                    'similar = { path = "%s", default-features = false, features = ["text"] }\n[workspace]\n'
+                    'similar = { path = "%s", default-features = false, features = ["text", "bytes"] }\n[workspace]\n'
                     '[profile.release]\nopt-level = 2\ndebug = false\noverflow-checks = true\ndebug-assertions = true\n' % REPO)
         lock = os.path.join(REPO, 'Cargo.lock')
         env = dict(os.environ, CARGO_TARGET_DIR=os.path.join(scratch, 'target'), CARGO_NET_OFFLINE='true')
